@@ -55,7 +55,7 @@ orc_target_get_default (void)
     OrcTarget *const target = orc_target_get_by_name (envvar);
 
     free (envvar);
-    if (target != NULL)
+    if (target != NULL && target->executable)
       return target;
   }
 
